@@ -103,7 +103,7 @@ func (rd *realDecoder) getArrayLength() (int, error) {
 	if tmp > rd.remaining() {
 		rd.off = len(rd.raw)
 		return -1, ErrInsufficientData
-	} else if tmp > 2*math.MaxUint16 {
+	} else if tmp > 2*math.MaxUint16 || tmp < -1 {
 		return -1, errInvalidArrayLength
 	}
 	return tmp, nil
@@ -117,6 +117,11 @@ func (rd *realDecoder) getCompactArrayLength() (int, error) {
 
 	if n == 0 {
 		return 0, nil
+	}
+
+	if n > uint64(rd.remaining()) {
+		rd.off = len(rd.raw)
+		return 0, ErrInsufficientData
 	}
 
 	return int(n) - 1, nil
@@ -231,6 +236,13 @@ func (rd *realDecoder) getCompactString() (string, error) {
 
 	length := int(n - 1)
 
+	if length < 0 {
+		return "", errInvalidStringLength
+	} else if length > rd.remaining() {
+		rd.off = len(rd.raw)
+		return "", ErrInsufficientData
+	}
+
 	tmpStr := string(rd.raw[rd.off : rd.off+length])
 	rd.off += length
 	return tmpStr, nil
@@ -246,6 +258,9 @@ func (rd *realDecoder) getCompactNullableString() (*string, error) {
 
 	if length < 0 {
 		return nil, err
+	} else if length > rd.remaining() {
+		rd.off = len(rd.raw)
+		return nil, ErrInsufficientData
 	}
 
 	tmpStr := string(rd.raw[rd.off : rd.off+length])
@@ -263,7 +278,17 @@ func (rd *realDecoder) getCompactInt32Array() ([]int32, error) {
 		return nil, nil
 	}
 
+	if n > uint64(rd.remaining()) {
+		rd.off = len(rd.raw)
+		return nil, ErrInsufficientData
+	}
+
 	arrayLength := int(n) - 1
+
+	if rd.remaining() < 4*arrayLength {
+		rd.off = len(rd.raw)
+		return nil, ErrInsufficientData
+	}
 
 	ret := make([]int32, arrayLength)
 
@@ -346,6 +371,11 @@ func (rd *realDecoder) getStringArray() ([]string, error) {
 
 	if n < 0 {
 		return nil, errInvalidArrayLength
+	}
+
+	if rd.remaining() < 2*n {
+		rd.off = len(rd.raw)
+		return nil, ErrInsufficientData
 	}
 
 	ret := make([]string, n)
